@@ -2,7 +2,9 @@
 From Coq Require Import List NArith Bool.
 Import ListNotations.
 From PF Require Import Opcodes RefTable Config Sim Ref Lex Envelope Oracles.
-From PF.proofs Require Import Refine Run PropsR LexRT PropsB Examples.
+From PF Require Import Entropy Gen.
+From PF Require Import SrcStdlibP.
+From PF.proofs Require Import FinR Refine Run PropsR LexRT PropsB Examples.
 
 (* oracle_C06 v out: out lexes; for v >= 4 either PROTO, FRAME n, rest with no FRAME token in
    rest and n + 11 = |out| (2 bytes PROTO + 9 bytes FRAME + n), or no FRAME token at all; for
@@ -12,6 +14,27 @@ Theorem C06_bytes : forall c framed steps, run_R c framed steps -> fits c framed
   oracle_C06 (c_version c) (serialize (run_tokens c framed steps)) = true.
 Proof. exact C06_B. Qed.
 Print Assumptions C06_bytes.
+
+(* END TO END, on the bit-exact model of the generator (level F, Gen.generate_internal - the model
+   suite S2 compares byte for byte with the implementation): whatever entropy source, protocol,
+   ranges, flags and mutators, the bytes it returns satisfy the byte-level oracle.  Through
+   FinR.F_in_R (every level-F run is a level-R run whose tokens serialise to the returned bytes).
+   names_ok / fmt_ok: the GLOBAL name table and the float formatter produce newline-free,
+   well-formed text (checked on the real table / formatter by suite S2 and SrcConsts);
+   cfg_small: the opcode range bounds are below 2^32-2; out_fits: the output is shorter than 2^64 *)
+Theorem C06_generated : forall e c src r,
+  names_ok e -> fmt_ok e -> cfg_small c -> generate_internal e id_order c src = Ok r -> out_fits r ->
+  oracle_C06 (c_version c) (g_out r) = true.
+Proof. intros e c src r Hn Hf Hc Hg Hfit. exact (gen_C06 e c src r Hn Hf Hc Hg Hfit). Qed.
+Print Assumptions C06_generated.
+
+(* ... and with the name table of the CURRENT source (gen/SrcStdlib.v is regenerated from the file
+   emission.rs embeds; SrcStdlibP.src_names_ok decides names_ok over all of its entries) *)
+Theorem C06_generated_src : forall fmt c src r,
+  fmt_ok (src_env fmt) -> cfg_small c -> generate_internal (src_env fmt) id_order c src = Ok r -> out_fits r ->
+  oracle_C06 (c_version c) (g_out r) = true.
+Proof. intros fmt c src r Hf Hc Hg Hfit. exact (C06_generated (src_env fmt) c src r (src_names_ok fmt) Hf Hc Hg Hfit). Qed.
+Print Assumptions C06_generated_src.
 
 Example C06_nonvacuous : run_R (ex_cfg V4 7) true ex_steps2 /\ fits (ex_cfg V4 7) true ex_steps2
   /\ existsb is_frame (run_tokens (ex_cfg V4 7) true ex_steps2) = true.
